@@ -4,6 +4,7 @@
 (*                                                                         *)
 (* A configuration is one invocation of `penne`:                           *)
 (*   sub     build | run | emit                                            *)
+(*   implicit  `penne FILES` without the word `build` (build is default)   *)
 (*   verb    default | silent | verbose      (--silent / --verbose)        *)
 (*   color   default | never | always        (--color)                     *)
 (*   arrows  default | ascii                 (--arrows)                    *)
@@ -32,9 +33,10 @@ Inputs == {"valid", "lex", "sem"}
 Paths == {"relative", "nested"}
 
 Configs ==
-    { c \in [sub : Subs, verb : Verbs, color : Colors, arrows : Arrows, wasm : BOOLEAN, outdir : BOOLEAN,
+    { c \in [sub : Subs, implicit : BOOLEAN, verb : Verbs, color : Colors, arrows : Arrows, wasm : BOOLEAN, outdir : BOOLEAN,
              flag : BOOLEAN, env : BOOLEAN, cfg : BOOLEAN, bfail : BOOLEAN, input : Inputs, nmods : {1, 2},
              path : Paths] :
+        /\ c.implicit => c.sub = "build"
         /\ c.sub = "emit" => (~c.flag /\ ~c.env /\ ~c.cfg /\ ~c.bfail)      \* emit has no backend
         /\ c.sub = "run" => (~c.cfg /\ ~c.wasm)                             \* run has neither --config nor --wasm
         \* the default backend of `run` is the real lli, whose status cannot be forced
